@@ -18,6 +18,14 @@ CHECKS = {
    note='Trusted: R-SUB (mc/ref/rsub.py, 200 lines) in its literal and liberal readings; exactness judged only where both '
         'agree. Tables with >2 generic classes in a chain, >2 parameters, depth >2 are not covered.',
    technique='small-scope exhaustive enumeration of class tables x type pairs against a reference relation'),
+ 'C08': dict(engine='SSE+inner-DFS', category='model_checking', design_ref='5 C08',
+   text='For every input of a small-scope universe (9 generic declarations incl. dependent/parameterized/variant bounds x '
+        '4-5 pools incl. abstract classes, bare constructors, primitives x 6-9 pre-assignments x 5 variance maps x 4 switch '
+        'vectors, both helpers) the COMPLETE choice tree of the helper is walked: every answer at every random draw. Each '
+        'leaf is judged for arity, bounds (R-SUB), usable arguments, kept pre-assignments and projection permissions.',
+   note='Trusted: R-SUB and the oracle reading of "consistent pre-assignment" (satisfiable along the bound chain). Inner '
+        'trees are capped (reported); the universe of declarations is fixed.',
+   technique='exhaustive choice-tree DFS of the real helper per input (stateless model checking of a randomised function)'),
  'C11': dict(engine='CTE+HBFS', category='model_checking', design_ref='5 C11',
    text='For every pipeline execution within the deviation bound, an explicit-state BFS over translation histories on '
         'long-lived translator objects (3 programs x 4 languages, depth 3, state merging on translator attributes; '
@@ -82,6 +90,8 @@ ENGINES = [
   'kind_free_text': 'enumeration of all digraphs up to 4 (5) vertices'},
  {'name': 'SSE', 'path': 'mc/universe.py', 'serves_properties': ['C06'],
   'kind_free_text': 'small-scope enumeration of class tables (skeleton grammar) and types built through the real constructors'},
+ {'name': 'inner-DFS', 'path': 'mc/inner.py', 'serves_properties': ['C08'],
+  'kind_free_text': 'complete enumeration of the random-choice tree of one helper call'},
  {'name': 'OUT', 'path': 'mc/ref/output_grammar.py', 'serves_properties': ['C14'],
   'kind_free_text': 'generative grammar of javac/kotlinc/groovyc/scalac batch output, exhaustively enumerated'},
  {'name': 'DRV', 'path': 'mc/drv.py', 'serves_properties': ['C15'],
